@@ -968,12 +968,13 @@ type c17Hist struct {
 	bad    bool
 	saw    map[string]bool
 
-	backups      []c17BackupP
-	forceLatest  bool
-	limbo        int    // a trim to this version failed half-way and was not retried yet
-	trimFault    string // storage op whose failure made an earlier (retried) trim fail
-	onFaultFail  func(what string)
-	onFaultRetry func()
+	backups       []c17BackupP
+	restoreNoName bool // the next restores pass no name (it is taken from the backup)
+	forceLatest   bool
+	limbo         int    // a trim to this version failed half-way and was not retried yet
+	trimFault     string // storage op whose failure made an earlier (retried) trim fail
+	onFaultFail   func(what string)
+	onFaultRetry  func()
 }
 
 func (h *c17Hist) log(format string, a ...any) {
@@ -1367,7 +1368,7 @@ var c17HistSpecs = []c17Spec{
 func TestVerif_C17_History(t *testing.T) {
 	seed := kit.Seed(17)
 	shard := c17Shard()
-	r := kit.NewResult(t, "c17-policy-history", seed, "case = one seeded history of 30 operations on one keysutil policy (rotate, raise/lower min_decryption_version, set min_encryption_version, trim via min_available_version, backup, forced restore of an earlier backup, cache drop/reload, encrypt, sign, invalid settings that Persist must reject) with cached and cache-less lock managers; in two thirds of the histories the storage is a wrapper that makes one PRNG-chosen storage operation (#0..6) of a rotate/config/trim/backup/restore fail once, the caller rolls its field change back as the transit handlers do and retries; plus fixed scenarios in which EVERY storage-operation index of rotate / raise min_dec / lower min_dec / trim / restore / backup is failed in turn and the ring is then rotated, used, raised to latest and lowered again. After every operation (including a failed one) every remembered ciphertext/signature (newest per version + sample) is replayed: it must decrypt/verify to the original iff min_dec <= version <= latest and that version still holds the key that produced it, encrypt/sign must refuse versions below min_encryption_version, labels must equal the version used, the stored archive must contain the private material of every version in [min_available, latest] and storage must hold none of trimmed versions; a history is non-trivial when its operation sequence is distinct")
+	r := kit.NewResult(t, "c17-policy-history", seed, "case = one seeded history of 30 operations on one keysutil policy (rotate, raise/lower min_decryption_version, set min_encryption_version, trim via min_available_version, backup, restore of an earlier backup (with force: name given or taken from the backup, on the cached policy / a new lock manager / after invalidation; without force: must be refused and change nothing), cache drop/reload, encrypt, sign, invalid settings that Persist must reject) with cached and cache-less lock managers; in two thirds of the histories the storage is a wrapper that makes one PRNG-chosen storage operation (#0..6) of a rotate/config/trim/backup/restore fail once, the caller rolls its field change back as the transit handlers do and retries; plus fixed scenarios in which EVERY storage-operation index of rotate / raise min_dec / lower min_dec / trim / restore / backup is failed in turn and the ring is then rotated, used, raised to latest and lowered again. After every operation (including a failed one) every remembered ciphertext/signature (newest per version + sample) is replayed: it must decrypt/verify to the original iff min_dec <= version <= latest and that version still holds the key that produced it, encrypt/sign must refuse versions below min_encryption_version, labels must equal the version used, the stored archive must contain the private material of every version in [min_available, latest] and storage must hold none of trimmed versions; a history is non-trivial when its operation sequence is distinct")
 	defer r.Write(t)
 	ctx := context.Background()
 	scenSpecs := []c17Spec{{Type: KeyType_AES256_GCM96}, {Type: KeyType_ChaCha20_Poly1305, Derived: true, KDF: Kdf_hkdf_sha256}, {Type: KeyType_AES128_GCM96, Derived: true, Convergent: true, KDF: Kdf_hkdf_sha256}, {Type: KeyType_ED25519}}
@@ -1415,6 +1416,9 @@ func TestVerif_C17_History(t *testing.T) {
 	r.Require("trimmed_version_gone", 20)
 	r.Require("archive_has_version", 1000)
 	r.Require("restores", 20)
+	r.Require("unforced_restore_refused", 20)
+	r.Require("unforced_restore_refused:new lock manager:name_given=false", 2)
+	r.Require("forced_restore:new lock manager:name_given=false", 2)
 	r.Require("invalid_setting_rejected", 20)
 	r.Require("fault_failed_request:rotate", 20)
 	r.Require("fault_failed_request:config", 20)
@@ -1627,7 +1631,13 @@ func (h *c17Hist) doBackup() error {
 }
 
 func (h *c17Hist) doRestore(b c17BackupP) error {
-	if err := h.k.lm.RestorePolicy(h.k.ctx, h.k.st, h.k.name, b.blob, true); err != nil {
+	// the name is given explicitly or taken from the backup (the backups of a
+	// history are all of this key)
+	name := h.k.name
+	if h.restoreNoName {
+		name = ""
+	}
+	if err := h.k.lm.RestorePolicy(h.k.ctx, h.k.st, name, b.blob, true); err != nil {
 		return err
 	}
 	h.m = b.m.clone()
@@ -1883,6 +1893,38 @@ func c17RunHistory(ctx context.Context, r *kit.Result, rng *kit.Rand, id string,
 				continue
 			}
 			b := h.backups[rng.Intn(len(h.backups))]
+			// matrix: {name given, taken from the backup} x {force, no force} x
+			// {policy as cached (or cache disabled), new lock manager on the same
+			// storage, invalidated}
+			h.restoreNoName = rng.Chance(1, 2)
+			force := rng.Chance(3, 5)
+			how := "as-is"
+			switch rng.Intn(4) {
+			case 0:
+				how = "new lock manager"
+				k.reload()
+			case 1:
+				how = "invalidated"
+				k.lm.InvalidatePolicy(k.name)
+			}
+			if !force {
+				name := k.name
+				if h.restoreNoName {
+					name = ""
+				}
+				sig.WriteString("s")
+				err := k.lm.RestorePolicy(ctx, k.st, name, b.blob, false)
+				h.log("restore WITHOUT force name=%q (%s) backup(latest=%d min_dec=%d min_avail=%d) err=%v", name, how, b.m.Latest, b.m.MinDec, b.m.MinAvail, err)
+				if err == nil {
+					h.violate("C17-unforced-restore-replaced-existing-key", fmt.Sprintf("restore without force (name %q, policy %s, cache disabled=%v) of a backup (latest=%d min_dec=%d) onto the existing key was accepted", name, how, noCache, b.m.Latest, b.m.MinDec))
+				} else {
+					r.Count("unforced_restore_refused:"+how+fmt.Sprintf(":name_given=%v", !h.restoreNoName), 1)
+					r.Count("unforced_restore_refused", 1)
+				}
+				h.checkNow()
+				continue
+			}
+			r.Count("forced_restore:"+how+fmt.Sprintf(":name_given=%v", !h.restoreNoName), 1)
 			sig.WriteString("S")
 			err, _ := h.faulted("restore", h.pickFault(), true, func() error { return h.doRestore(b) })
 			h.log("restore backup(latest=%d min_dec=%d min_avail=%d) err=%v", b.m.Latest, b.m.MinDec, b.m.MinAvail, err)
